@@ -104,7 +104,7 @@ add(Job('is_ipv4', 'harness/is_ipv4.c', enforce='is_ipv4', loops=True, timeout=1
         expect=['postcondition', 'loop_invariant_base', 'loop_invariant_step', 'loop_decreases', 'assigns'],
         functions=['is_ipv4'], files=['src/is_ipv4_ipv6.c'], assumptions=[A1, A5, A9],
         note='g_len <= 2^31-16; precondition from the call sites: the closing bracket follows the address'))
-add(Job('is_ipv6', 'harness/is_ipv6.c', enforce='is_ipv6', replace=['is_ipv4'], timeout=2400, reach=4,
+add(Job('is_ipv6', 'harness/is_ipv6.c', enforce='is_ipv6', replace=['is_ipv4'], timeout=2400, reach=4, mem_est=22, solvers=('minisat2',),
         unwindset=[('is_ipv6_wrapped_for_contract_checking.0', 18)],
         expect=['postcondition', 'assigns', 'unwind'], functions=['is_ipv6'], files=['src/is_ipv4_ipv6.c'], assumptions=[A1, A5, A9],
         note='no loop invariant: the loop provably runs <= 17 times (unwinding assertion is an obligation); input length <= 45 bytes in this job, longer inputs: is_ipv6_len'))
@@ -116,11 +116,11 @@ add(Job('is_ipaddr', 'harness/is_ipaddr.c', enforce='is_ipaddr', replace=['is_ip
 
 A4 = 'A4: strchr(p,".") answers from the ghost dot-rank function of the input (pointwise facts); four derived facts about ranks are assumed at each call and proved from the step axiom in job lemma_rank'
 SP_HELPER_LOOPS = [('is_special_domain.%d' % k, 7) for k in (1, 2, 4, 5, 6, 7)]   # CHECK() macro loops (<= 5 entries) and their do-while(0)
-add(Job('is_special_domain_A', 'harness/is_special_domain.c', enforce='is_special_domain', loops=True, defines=['-DJOB_A'], timeout=1800, reach=0,
+add(Job('is_special_domain_A', 'harness/is_special_domain.c', enforce='is_special_domain', loops=True, defines=['-DJOB_A'], timeout=2400, reach=0, mem_est=8, solvers=('minisat2',),
         pre_unwind=SP_HELPER_LOOPS, expect=['loop_invariant_base', 'loop_invariant_step', 'loop_decreases', 'assertion'],
         functions=['is_special_domain (counting and skipping loops)'], files=['src/is_special_domain.c'], assumptions=[A4, A9],
         note='domain length 1..253 (guaranteed by is_ascii_domain at every call site), no root dot (premise of C09)'))
-add(Job('is_special_domain_B', 'harness/is_special_domain.c', enforce='is_special_domain', loops=True, defines=['-DJOB_B'], timeout=2700, reach=4,
+add(Job('is_special_domain_B', 'harness/is_special_domain.c', enforce='is_special_domain', loops=True, defines=['-DJOB_B'], timeout=4200, reach=4, mem_est=20, solvers=('minisat2',),
         pre_unwind=SP_HELPER_LOOPS, expect=['postcondition', 'loop_invariant_step', 'assertion'],
         functions=['is_special_domain (verdict after the cut)'], files=['src/is_special_domain.c'], assumptions=[A4, A6, A9,
             'cut facts (no-dot shortcut iff no dot; cursor at the second-to-last label) are assumed here and are the obligations of job is_special_domain_A'],
